@@ -17,7 +17,7 @@ def run(ctx):
     run_driver_checked(ctx, exe_a, [ctx.path("nets_asan.ndjson")], what="drv_networks(asan)", timeout=1200)
     if not ok:
         return
-    lines = [x for x in open(tr).read().split("\n") if x]
+    lines = [x for x in read_text(tr).split("\n") if x]
     nets = [json.loads(x) for x in lines if '"e":"net"' in x]
     for n in nets:
         ctx.count_case("%s/%s/%d" % (n["family"], n["entry"], n["n"]), nontrivial=n["n"] >= 2)
